@@ -29,7 +29,8 @@ Record FInv (w : writer) : Prop := mkFInv {
   fi_plain : forall p, In p (waiting w) -> plain p = true;
   fi_live : alive w = true -> p_q12 w = [];
   fi_off : alive w = false -> q12 w = [];
-  fi_rel : forall p, In p (qrel w ++ map snd (pubout w) ++ p_unack w) -> plain p = false \/ pdup p = true
+  fi_rel : forall p, In p (qrel w ++ p_unack w) -> plain p = false \/ pdup p = true;
+  fi_q0 : forall p, In p (q0 w ++ p_q0 w) -> plain p = false
 }.
 
 Lemma plain_with_id p id : plain (with_id p id) = plain p.
@@ -64,3 +65,140 @@ Qed.
 Lemma enc_unack_notfresh p : plain (enc_unack p) = false \/ pdup (enc_unack p) = true.
 Proof. unfold enc_unack. destruct (is_pub p) eqn:E; [right; reflexivity|]. left. unfold plain, is_pub in *. destruct (pk p); [discriminate | reflexivity]. Qed.
 
+
+Lemma enc_queued_q0 now l : (forall p, In p l -> plain p = false) -> forall p, In p (flat_map (enc_queued now) l) -> plain p = false.
+Proof.
+  intros H p Hp. apply in_flat_map in Hp. destruct Hp as [x [Hx Hp]]. unfold enc_queued in Hp.
+  destruct (expired now x); [destruct Hp|]. destruct Hp as [<-|[]]. rewrite plain_with_id. apply H. exact Hx.
+Qed.
+
+Lemma fresh_nil_all l : (forall p, In p l -> plain p = false \/ pdup p = true) -> fresh_out l = [].
+Proof.
+  induction l as [|x l IH]; intros H; [reflexivity|]. change (fresh_out (x :: l)) with (fresh_out ([x] ++ l)).
+  rewrite fresh_out_app, (not_fresh x (H x (or_introl eq_refl))), IH; [reflexivity|]. intros p Hp. apply H. right. exact Hp.
+Qed.
+
+(* one writer round *)
+Lemma fifo_pop now w w' o : FInv w -> alive w = true -> pop_round now w = (Fine, w', o) ->
+  FInv w' /\ map ptag (fresh_out o) ++ map ptag (waiting w') = map ptag (waiting w).
+Proof.
+  intros [F1 F2 F3 F4 F5] Ea Hp. unfold pop_round in Hp. rewrite Ea in Hp. cbn [negb] in Hp.
+  pose proof (F2 Ea) as Epq. unfold waiting in *. rewrite Epq in *. rewrite !app_nil_r in *.
+  (* phase 1 *)
+  set (ph1 := match qrel w with [] => ([], [], pubout w) | p1 :: r => ([p1], r, store (pid p1) p1 (pubout w)) end) in Hp.
+  assert (H1a : fresh_out (fst (fst ph1)) = []).
+  { subst ph1. destruct (qrel w) as [|p1 r1] eqn:Eq; [reflexivity|]. cbn [fst]. apply not_fresh. apply F4. left. reflexivity. }
+  assert (H1b : forall x, In x (snd (fst ph1)) -> In x (qrel w)).
+  { subst ph1. destruct (qrel w) as [|p1 r1]; cbn [fst snd]; [intros x []| intros x Hx; right; exact Hx]. }
+  destruct ph1 as [[o1 qrel1] out1]. cbn [fst snd] in H1a, H1b.
+  (* phase 3 *)
+  set (ph3 := match q0 w with [] => ([], []) | p3 :: r => (if expired now p3 then [] else [p3], r) end) in Hp.
+  assert (H3a : fresh_out (fst ph3) = []).
+  { subst ph3. destruct (q0 w) as [|p3 r3] eqn:Eq0; [reflexivity|]. cbn [fst]. destruct (expired now p3); [reflexivity|].
+    apply not_fresh. left. apply F5. left. reflexivity. }
+  assert (H3b : forall x, In x (snd ph3) -> In x (q0 w)).
+  { subst ph3. destruct (q0 w) as [|p3 r3]; cbn [snd]; [intros x []| intros x Hx; right; exact Hx]. }
+  destruct ph3 as [o3 q0']. cbn [fst snd] in H3a, H3b.
+  (* the invariant for any result of phase 2 that keeps a suffix of the queue *)
+  assert (Hinv : forall f2 q12' out2, (forall x, In x q12' -> In x (q12 w)) -> FInv (wr_set w f2 q0' q12' qrel1 out2)).
+  { intros f2 q12' out2 Hsub. constructor; unfold wr_set, waiting; cbn [q12 p_q12 alive qrel pubout p_unack q0 p_q0].
+    - rewrite Epq, app_nil_r. intros x Hx. apply F1. apply Hsub. exact Hx.
+    - intros _. exact Epq.
+    - intros H. congruence.
+    - intros x Hx. apply F4. apply in_app_or in Hx. apply in_or_app. destruct Hx as [Hx|Hx]; [left; apply H1b; exact Hx | right; exact Hx].
+    - intros x Hx. apply F5. apply in_app_or in Hx. apply in_or_app. destruct Hx as [Hx|Hx]; [left; apply H3b; exact Hx | right; exact Hx]. }
+  (* phase 2 *)
+  destruct (q12 w) as [|p2 r2] eqn:Eq2.
+  - inversion Hp; subst. split; [apply Hinv; intros x []|].
+    unfold wr_set. cbn [q12 p_q12]. rewrite Epq. rewrite fresh_out_app. rewrite H1a. cbn [app]. replace (fresh_out o3) with (@nil pkt) by (symmetry; exact H3a). reflexivity.
+  - assert (Hp2 : plain p2 = true) by (apply F1; left; reflexivity).
+    destruct (quota_available (fl w)).
+    + destruct (acquire (fl w)) as [[id f']| |]; [|inversion Hp|inversion Hp].
+      rewrite (plain_not_expired now (with_id p2 id)) in Hp by (rewrite plain_with_id; exact Hp2).
+      inversion Hp; subst. split; [apply Hinv; intros x Hx; right; exact Hx|].
+      unfold wr_set. cbn [q12 p_q12]. rewrite Epq. rewrite fresh_out_app, H1a. cbn [app].
+      change (with_id p2 id :: o3) with ([with_id p2 id] ++ o3). rewrite fresh_out_app, H3a, app_nil_r.
+      unfold fresh_out. cbn [filter]. rewrite plain_with_id, Hp2. cbn [app map]. rewrite app_nil_r. reflexivity.
+    + inversion Hp; subst. split; [apply Hinv; intros x Hx; exact Hx|].
+      unfold wr_set. cbn [q12 p_q12]. rewrite Epq. rewrite fresh_out_app, H1a. cbn [app]. rewrite H3a. cbn [app map]. rewrite app_nil_r. reflexivity.
+Qed.
+
+Lemma fifo_step w e w' o : FInv w -> (forall now p, e = ESend now p -> plain p = true) ->
+  step w e = (Fine, w', o) ->
+  FInv w' /\ map ptag (fresh_out o) ++ map ptag (waiting w') = map ptag (waiting w) ++ new_tag e.
+Proof.
+  intros HF Hpl Hs. pose proof HF as [F1 F2 F3 F4 F5]. destruct e as [now p|now|v5 a|now|r]; cbn [step new_tag] in *.
+  - (* ESend *) specialize (Hpl now p eq_refl). inversion Hs; subst. cbn [fresh_out filter map app].
+    assert (Hk : exists q, pk p = KPub (N.pos q)).
+    { unfold plain in Hpl. destruct (pk p) as [[|q]|]; try (cbn in Hpl; discriminate). exists q. reflexivity. }
+    destruct Hk as [q Hk]. unfold send. destruct (alive w) eqn:Ea.
+    + pose proof (F2 eq_refl) as Epq. rewrite Hk. unfold waiting in *. cbn [q12 p_q12 alive qrel pubout p_unack q0 p_q0].
+      rewrite Epq. rewrite !app_nil_r. rewrite map_app. split; [|reflexivity].
+      constructor; cbn [q12 p_q12 alive qrel pubout p_unack q0 p_q0 waiting]; try assumption.
+      * unfold waiting. cbn [q12 p_q12]. rewrite ?Epq, ?app_nil_r. intros x Hx. apply in_app_or in Hx. destruct Hx as [Hx|[<-|[]]]; [|exact Hpl].
+        apply F1. apply in_or_app. left. exact Hx.
+      * intros _. rewrite ?Epq. reflexivity.
+      * intros H. discriminate.
+    + pose proof (F3 eq_refl) as Eq. rewrite (plain_not_expired now p Hpl), Hk. unfold waiting in *. cbn [q12 p_q12 alive qrel pubout p_unack q0 p_q0].
+      rewrite Eq. cbn [app]. rewrite map_app. split; [|reflexivity].
+      constructor; cbn [q12 p_q12 alive qrel pubout p_unack q0 p_q0]; try assumption.
+      * unfold waiting. cbn [q12 p_q12]. rewrite ?Eq. cbn [app]. intros x Hx. apply in_app_or in Hx.
+        destruct Hx as [Hx|[<-|[]]]; [|rewrite plain_with_id; exact Hpl]. apply F1. apply in_or_app. right. exact Hx.
+      * intros H. congruence.
+      * intros _. rewrite ?Eq. reflexivity.
+  - (* EPop *) rewrite app_nil_r. destruct (alive w) eqn:Ea; [apply (fifo_pop now w w' o HF Ea Hs)|].
+    unfold pop_round in Hs. rewrite Ea in Hs. cbn [negb] in Hs. inversion Hs; subst. split; [exact HF | reflexivity].
+  - (* EAck *) rewrite app_nil_r. inversion Hs; subst. cbn [fresh_out filter map app].
+    destruct (alive w) eqn:Ea; [|split; [exact HF | reflexivity]].
+    assert (G : forall f2 qrel2 out2, (forall x, In x qrel2 -> In x (qrel w) \/ exists id, x = mk_pubrel id) ->
+              FInv (wr_set w f2 (q0 w) (q12 w) qrel2 out2) /\ map ptag (waiting (wr_set w f2 (q0 w) (q12 w) qrel2 out2)) = map ptag (waiting w)).
+    { intros f2 qrel2 out2 Hq. split; [|reflexivity]. constructor; unfold wr_set, waiting; cbn [q12 p_q12 alive qrel pubout p_unack q0 p_q0]; try assumption.
+      - intros _. apply F2. reflexivity.
+      - intros H. congruence.
+      - intros x Hx. apply in_app_or in Hx. destruct Hx as [Hx|Hx]; [|apply F4; apply in_or_app; right; exact Hx].
+        destruct (Hq x Hx) as [H|[id ->]]; [apply F4; apply in_or_app; left; exact H | left; reflexivity]. }
+    destruct a as [id|id err|id]; cbn [on_ack].
+    + destruct (in_out id (pubout w)); [apply G; auto | split; [exact HF | reflexivity]].
+    + destruct (v5 && err); apply G; [auto|]. intros x Hx. apply in_app_or in Hx. destruct Hx as [Hx|[<-|[]]]; [left; exact Hx | right; exists id; reflexivity].
+    + destruct (in_out id (pubout w)); [apply G; auto | split; [exact HF | reflexivity]].
+  - (* EClose *) rewrite app_nil_r. inversion Hs; subst. cbn [fresh_out filter map app]. unfold close.
+    destruct (alive w) eqn:Ea; cbn [negb]; [|split; [exact HF | reflexivity]].
+    pose proof (F2 eq_refl) as Epq. unfold waiting in *. rewrite Epq in F1. rewrite app_nil_r in F1. cbn [q12 p_q12 app]. rewrite Epq, !app_nil_r. cbn [app].
+    destruct (enc_queued_plain now (q12 w) F1) as [E1 E2]. split; [|exact E1].
+    constructor; cbn [q12 p_q12 alive qrel pubout p_unack q0 p_q0 app].
+    + unfold waiting. cbn [q12 p_q12 app]. exact E2.
+    + intros H. discriminate.
+    + intros _. reflexivity.
+    + cbn [app]. intros x Hx. apply in_app_or in Hx. destruct Hx as [Hx|Hx].
+      * apply F4. apply in_or_app. right. exact Hx.
+      * apply in_app_or in Hx. destruct Hx as [Hx|Hx]; apply in_map_iff in Hx; destruct Hx as [y [<- _]]; apply enc_unack_notfresh.
+    + cbn [app]. intros x Hx. apply in_app_or in Hx. destruct Hx as [Hx|Hx]; [apply F5; apply in_or_app; right; exact Hx|].
+      destruct (offq0 w); [|destruct Hx]. apply (enc_queued_q0 now (q0 w)); [|exact Hx]. intros y Hy. apply F5. apply in_or_app. left. exact Hy.
+  - (* EOpen *) rewrite app_nil_r. inversion Hs; subst. cbn [fresh_out filter map app]. unfold open.
+    destruct (alive w) eqn:Ea; [split; [exact HF | reflexivity]|].
+    pose proof (F3 eq_refl) as Eq. unfold waiting in *. rewrite Eq in F1. cbn [q12 p_q12 app] in *. rewrite Eq, app_nil_r. cbn [app]. split; [|reflexivity].
+    constructor; cbn [q12 p_q12 alive qrel pubout p_unack q0 p_q0 app].
+    + unfold waiting. cbn [q12 p_q12]. rewrite app_nil_r. exact F1.
+    + intros _. reflexivity.
+    + intros H. discriminate.
+    + rewrite app_nil_r. intros x Hx. apply F4. apply in_or_app. right. exact Hx.
+    + rewrite app_nil_r. intros x Hx. apply F5. apply in_or_app. right. exact Hx.
+Qed.
+
+Lemma init_finv rm oq : FInv (init rm oq).
+Proof. constructor; cbn; try (intros p []); try reflexivity; intros; discriminate. Qed.
+
+(* every history: first transmissions so far, followed by what still waits, is exactly what was handed to the
+   session, in that order *)
+Theorem writer_fifo es : forall w w' outs, FInv w -> sends_plain es -> run w es = (Fine, w', outs) ->
+  map ptag (fresh_out (concat outs)) ++ map ptag (waiting w') = map ptag (waiting w) ++ sent_tags es.
+Proof.
+  induction es as [|e r IH]; intros w w' outs HF Hsp Hr; cbn [run sent_tags] in *.
+  - inversion Hr; subst. cbn. rewrite app_nil_r. reflexivity.
+  - destruct (step w e) as [[oc w1] o] eqn:Es. destruct oc; [|discriminate].
+    destruct (run w1 r) as [[oc2 w2] os] eqn:Er. inversion Hr; subst.
+    destruct (fifo_step w e w1 o HF) as [HF1 Hstep]; [intros now p ->; apply (Hsp now p); left; reflexivity | exact Es |].
+    assert (Hsp' : sends_plain r) by (intros now p Hin; apply (Hsp now p); right; exact Hin).
+    specialize (IH w1 w' os HF1 Hsp' Er). cbn [concat]. rewrite fresh_out_app, map_app, <- app_assoc, IH, app_assoc, Hstep, <- app_assoc.
+    f_equal. destruct e; reflexivity.
+Qed.
